@@ -14,6 +14,14 @@ NREG, NPLAIN = 6, 4
 CONS = ["-", "-", "c:1:-8:8:1", "c:0:-8:8:0", "c:1:0:+inf:0", "c:0:0:+inf:0", "c:0:-inf:4:1", "c:1:-4:12:0", "c:0:-2:2:1"]
 
 
+TINY = 2.0 ** -28      # a nudged value token `n'` is n/4 + 2^-30, i.e. n + 2^-28 in quarter units
+
+
+def fmtq(q):
+    """value token: an integer number of quarters, or `n'` for a nudged one"""
+    return "%d" % q if isinstance(q, int) else "%d'" % int(q // 1)
+
+
 def accepts(con, q):
     if con == "-":
         return True
@@ -172,6 +180,15 @@ def gen_case(rng, tag, length, raise_p=0.5, soup=False):
                             ops.append("setv %d %s %d" % (j, e[0], q))
                             if accepts(e[2], q):
                                 e[1] = q
+            # a value that differs from the target's by 2^-30 only: it *is* a different value
+            if j != k and matching and rng.random() < 0.15:
+                e = rng.choice(matching)
+                t = sh.find(k, e[0])
+                if isinstance(t[1], int):
+                    q = t[1] + TINY
+                    ops.append("setv %d %s %s" % (j, e[0], fmtq(q)))
+                    if accepts(e[2], q):
+                        e[1] = q
         else:
             j = rng.choice(others)
             n_match = len(sh.l[k])
@@ -576,7 +593,9 @@ def directed(rng):
                         q = o if o is not None else q
                     elif rng.random() < 0.3:
                         q = vals[i]
-                    ops.append("add 3 %s %d -" % (names[i], q))
+                        if rng.random() < 0.4 and accepts(cons[i], q + TINY):
+                            q = q + TINY      # next to the target's value, not equal to it
+                    ops.append("add 3 %s %s -" % (names[i], fmtq(q)))
                 if "setallv" not in kind and rng.random() < 0.5:
                     ops.append("add 3 %s 1 -" % rng.choice([x for x in NAMES if x not in names] or ["zz"]))
                 ops.append("%s %d 3" % (kind, k))
@@ -834,24 +853,133 @@ def generate(seed, tier):
     return cases
 
 
+def _parse_state(ans):
+    """answer line -> list of registers, each a list of (name, q, con, obj); None when unparsable"""
+    segs = ans.split(" ;")
+    if len(segs) != NREG + 2:
+        return None
+    regs = []
+    for sg in segs[2:]:
+        es = []
+        for t in sg.split():
+            if t.startswith("pre="):
+                continue
+            f = t.rsplit(",", 3)
+            if len(f) != 4:
+                return None
+            try:
+                es.append((f[0], int(f[1][:-1]) + TINY if f[1].endswith("'") else int(f[1]), f[2], f[3]))
+            except ValueError:
+                return None
+        regs.append(es)
+    return regs
+
+
+_SRC_ITER = ("setvs", "matchvs", "matchvs0", "testvs", "ap.setvs", "ap.matchvs")
+_TWO_REG = _SRC_ITER + ("setallv", "ap.setallv", "setps", "setallp", "matchps", "include", "shareall", "addall",
+                        "common", "ap.addall", "ap.shareall", "ap.include")
+
+
+def _culprit(op, tgt, src):
+    """position class (first / middle / last / only) of the entry that makes the call raise, in the
+    order the routine iterates; None when nothing makes it raise"""
+    def find(l, n):
+        for e in l:
+            if e[0] == n:
+                return e
+        return None
+    if op in _SRC_ITER:
+        seq = [(e, find(tgt, e[0])) for e in src]
+        seq = [(e, t) for e, t in seq if t is not None]
+        bad = [i for i, (e, t) in enumerate(seq) if not accepts(t[2], e[1])]
+    elif op in ("setallv", "ap.setallv"):
+        seq = [(t, find(src, t[0])) for t in tgt]
+        bad = [i for i, (t, e) in enumerate(seq) if e is None or not accepts(t[2], e[1])]
+    elif op == "setps":
+        seq = list(src)
+        bad = [i for i, e in enumerate(seq) if find(tgt, e[0]) is None]
+    elif op == "setallp":
+        seq = list(tgt)
+        bad = [i for i, t in enumerate(seq) if find(src, t[0]) is None]
+    else:
+        return None
+    if not bad:
+        return None
+    i, m = bad[0], len(seq)
+    return "only" if m == 1 else "first" if i == 0 else "last" if i == m - 1 else "middle"
+
+
 def coverage_extra(cases, answers):
     kinds = {}
     sizes = {}
     shared = 0
     total = 0
-    for a in answers:
-        for r in a or []:
+    per_op = {}
+    for c, a in zip(cases, answers):
+        prev = [[] for _ in range(NREG)]
+        raised_before = False
+        k = 0
+        for line in c[1:]:
+            if not line.strip() or line.startswith(("#", "=")):
+                continue
+            r = (a or [])[k] if a and k < len(a) else ""
+            k += 1
             total += 1
             head = r.split(" ;")[0].strip()
-            if head.startswith("exc:") or head in ("bad-op",):
+            is_exc = head.startswith("exc:")
+            if is_exc or head in ("bad-op",):
                 kinds[head] = kinds.get(head, 0) + 1
-            segs = r.split(" ;")[2:]
+            st = _parse_state(r)
             objs = []
-            for s in segs:
-                es = [t for t in s.split() if "," in t]
+            for es in (st or []):
                 sizes[len(es)] = sizes.get(len(es), 0) + 1
-                objs += [t.rsplit(",", 1)[1] for t in es]
+                objs += [e[3] for e in es]
             if len(objs) != len(set(objs)):
                 shared += 1
+            t = line.split()
+            op = t[0]
+            d = per_op.setdefault(op, {"n": 0, "raised": 0})
+            d["n"] += 1
+            d["raised"] += 1 if is_exc else 0
+            def bump(key):
+                d[key] = d.get(key, 0) + 1
+            if raised_before:
+                bump("after_an_earlier_raise")
+            try:
+                kk = int(t[1])
+            except (IndexError, ValueError):
+                kk = None
+            if kk is not None and kk < NREG:
+                tgt = prev[kk]
+                if any(e[2] != "-" for e in tgt):
+                    bump("target_constrained")
+                elif tgt:
+                    bump("target_unconstrained")
+                others = set(e[3] for j, es in enumerate(prev) if j != kk for e in es)
+                if any(e[3] in others for e in tgt):
+                    bump("target_shares_objects")
+                if op in _TWO_REG and len(t) > 2:
+                    try:
+                        jj = int(t[2])
+                    except ValueError:
+                        jj = None
+                    if jj is not None and jj < NREG:
+                        src = prev[jj]
+                        tn, sn = set(e[0] for e in tgt), set(e[0] for e in src)
+                        if tn & sn and (tn - sn or sn - tn):
+                            bump("names_overlap_partially")
+                        elif tn & sn:
+                            bump("names_equal")
+                        elif tn or sn:
+                            bump("names_disjoint")
+                        if jj == kk:
+                            bump("self_source")
+                        cl = _culprit(op, tgt, src)
+                        if cl:
+                            bump("culprit_" + cl)
+            if st is not None:
+                prev = st
+            raised_before = raised_before or is_exc
     return {"raised_by_kind": kinds, "list_size_histogram": {str(k): v for k, v in sorted(sizes.items())},
-            "answers_with_shared_objects_fraction": round(shared / total, 4) if total else 0.0}
+            "answers_with_shared_objects_fraction": round(shared / total, 4) if total else 0.0,
+            "op_states": {k: per_op[k] for k in sorted(per_op)}}
